@@ -393,6 +393,11 @@ def classify(case, items, kind, root=None):
     a = parse_answer(items)
     if a["panic"] is not None: return None
     if [(canon_bits(x), canon_bits(y)) for x, y in a["bits"]] != bits: return None    # tie broken on this input: no key
+    # the model follows whatever the three libm-backed primitives returned: a key is given only if every recorded call of
+    # this input is a genuine sqrt / cube root / polar value (otherwise the cause is the primitive, not a recorded finding)
+    if isinstance(case.term, LazyTerm):
+        for (w, keys, res) in case.term.log():
+            if entry_verdict(w, keys, res) not in ("ok", "skip"): return None
     m = case.meta
     coeffs = [complex(x, y) for x, y in m["coeffs"]]
     n = len(coeffs) - 1
@@ -431,14 +436,39 @@ def classify(case, items, kind, root=None):
 KEY_COUNTS = {}
 PRIM_COV = {}
 
+def entry_verdict(w, keys, res):
+    """one recorded libm call against an independent 40-digit reference: 'ok' | 'skip' (outside the reference range) | a description.
+    Complex::sqrt must return a square root with non-negative real part, pow(z, (1/3, 0)) a cube root in the principal
+    sector, polar(r, t) = r e^{it}: the hypotheses of quadratic_factors / cubic_factors."""
+    import mpmath
+    mpmath.mp.dps = 40
+    tol = mpmath.mpf(10) ** -12
+    args = [bits_f64(k) for k in keys]
+    out = complex(bits_f64(res[0]), bits_f64(res[1]))
+    if not all(math.isfinite(x) for x in args) or not (math.isfinite(out.real) and math.isfinite(out.imag)):
+        return "skip"
+    z = mpmath.mpc(args[0], args[1]); o = mpmath.mpc(out.real, out.imag)
+    if w == 0:
+        # |z|^2 under/overflows in Complex::abs outside this range: not a square root any more (KF-C10-E territory)
+        if abs(z) < mpmath.mpf(2) ** -500 or abs(z) > mpmath.mpf(2) ** 500: return "skip"
+        if abs(o * o - z) > tol * abs(z) or o.real < -tol * abs(o): return "sqrt"
+    elif w == 1:
+        if abs(z) < mpmath.mpf(2) ** -500 or abs(z) > mpmath.mpf(2) ** 500: return "skip"
+        if args[3] == 0.0 and args[2] == 1.0 / 3.0:
+            if abs(o ** 3 - z) > tol * abs(z) or abs(mpmath.arg(o)) > mpmath.pi / 3 + tol: return "pow 1/3"
+        else:
+            return "skip"
+    else:
+        r, t = mpmath.mpf(args[0]), mpmath.mpf(args[1])
+        ref = mpmath.mpc(r * mpmath.cos(t), r * mpmath.sin(t))
+        if abs(o - ref) > tol * max(abs(r), mpmath.mpf(1e-300)): return "polar"
+    return "ok"
+
 def extra_checks(exe, rng, tier):
     """The oracle table itself, entry by entry (every distinct recorded call of this run, capped):
     (1) replayed through the PUBLIC API (executor kind roots.prim): the hook logged what the function returns;
-    (2) checked against an independent high-precision reference (mpmath, 40 digits): Complex::sqrt returned a square
-        root with non-negative real part, pow(z, (1/3, 0)) a cube root in the principal sector, polar(r, t) = r e^{it}
-        -- the hypotheses of quadratic_factors / cubic_factors, and what makes the recorded table an honest stand-in for libm."""
-    import mpmath
-    mpmath.mp.dps = 40
+    (2) checked against an independent high-precision reference (entry_verdict) -- what makes the recorded table an honest
+        stand-in for libm."""
     events = []
     cache = LazyTerm.cache or {}
     seen = {}
@@ -453,7 +483,6 @@ def extra_checks(exe, rng, tier):
     lines = ["p%d cplx roots.prim %d %s" % (i, w, " ".join("x%016x" % k for k in keys)) for i, ((w, keys), res) in enumerate(ents)]
     ans = run_harness(exe, lines, "C10prim") if lines else {}
     n_api = n_ref = skipped = 0
-    tol = mpmath.mpf(10) ** -12
     for i, ((w, keys), res) in enumerate(ents):
         got = decode_harness(ans["p%d" % i])
         gb = (canon_bits(got[0][1]), canon_bits(got[1][1]))
@@ -462,30 +491,12 @@ def extra_checks(exe, rng, tier):
                            {"which": w, "args": list(keys)}))
             continue
         n_api += 1
-        args = [bits_f64(k) for k in keys]
-        out = complex(bits_f64(res[0]), bits_f64(res[1]))
-        if not all(math.isfinite(x) for x in args) or not (math.isfinite(out.real) and math.isfinite(out.imag)):
-            skipped += 1; continue
-        z = mpmath.mpc(args[0], args[1]); o = mpmath.mpc(out.real, out.imag)
-        bad = None
-        if w == 0:
-            if abs(z) < mpmath.mpf(2) ** -1000 or abs(z) > mpmath.mpf(2) ** 1000: skipped += 1; continue   # |z|^2 under/overflows in Complex::abs: not a square root any more (KF-C10-E territory)
-            if abs(o * o - z) > tol * abs(z) or o.real < -tol * abs(o): bad = "sqrt"
-        elif w == 1:
-            e = mpmath.mpc(args[2], args[3])
-            if abs(z) < mpmath.mpf(2) ** -500 or abs(z) > mpmath.mpf(2) ** 500: skipped += 1; continue
-            if e.imag == 0 and e.real == mpmath.mpf(1) / 3 or (args[3] == 0.0 and args[2] == 1.0 / 3.0):
-                if abs(o ** 3 - z) > tol * abs(z) or abs(mpmath.arg(o)) > mpmath.pi / 3 + tol: bad = "pow 1/3"
-            else:
-                skipped += 1; continue
+        v = entry_verdict(w, keys, res)
+        if v == "skip": skipped += 1
+        elif v == "ok": n_ref += 1
         else:
-            r, t = mpmath.mpf(args[0]), mpmath.mpf(args[1])
-            ref = mpmath.mpc(r * mpmath.cos(t), r * mpmath.sin(t))
-            if abs(o - ref) > tol * max(abs(r), mpmath.mpf(1e-300)): bad = "polar"
-        if bad:
-            events.append(("tie", "recorded %s call is not what the closed-form theorems assume: args=%r result=%r" % (bad, args, out), {"which": w, "args": list(keys)}))
-        else:
-            n_ref += 1
+            events.append(("tie", "recorded %s call is not what the closed-form theorems assume: args=%r result=%r" % (
+                v, [bits_f64(k) for k in keys], complex(bits_f64(res[0]), bits_f64(res[1]))), {"which": w, "args": list(keys)}))
     PRIM_COV.update({"oracle_entries_distinct": len(seen), "oracle_entries_replayed_through_public_api": n_api,
                      "oracle_entries_checked_against_mpmath": n_ref, "oracle_entries_outside_reference_range": skipped})
     return events, dict(PRIM_COV)
